@@ -57,6 +57,8 @@ impl<T> List<T> {
         loop {
             let head = self.head.load(Ordering::Acquire);
             node_ptr::set_next(node, head);
+            #[cfg(any(kani, rescrv_blue_verif))]
+            verif_harness::yield_point();
             if self
                 .head
                 .compare_exchange(head, node, Ordering::SeqCst, Ordering::SeqCst)
@@ -874,3 +876,7 @@ mod tests {
         guacamole(7762509103363396504)
     }
 }
+
+#[cfg(any(kani, rescrv_blue_verif))]
+#[path = "/verif/hk/listfree/mod.rs"]
+mod verif_harness;
